@@ -162,16 +162,24 @@ theorem mutRows_getElem? (alts : List String) (cells : List (List α)) (a : Stri
 
 theorem mutate_v0_ok {fuel : Nat} {d : DM α} {a : String} {g : List α} {draws : Nat → α} {pos : Nat}
     {md : DM α} {noise : List α} {pos' : Nat} (h : mutate_v0 fuel d a g draws pos = .ok (md, noise, pos')) :
+    hasNeg g = false ∧
     ∃ p, pos ≤ p ∧ allZero (drawNoise g draws p) = false ∧ noise = signNoise d.objs (drawNoise g draws p) ∧
       md = withRow d a noise ∧ pos' = p + g.length := by
   unfold mutate_v0 at h
   split at h
   · simp at h
-  · rename_i nz q hq
-    obtain ⟨p, hp, rfl, hz, rfl⟩ := drawUntilNonzero_some hq
-    simp only [Except.ok.injEq, Prod.mk.injEq] at h
-    obtain ⟨rfl, rfl, rfl⟩ := h
-    exact ⟨p, hp, hz, rfl, rfl, rfl⟩
+  · rename_i hneg
+    refine ⟨by simpa using hneg, ?_⟩
+    split at h
+    · simp at h
+    · rename_i nz q hq
+      obtain ⟨p, hp, rfl, hz, rfl⟩ := drawUntilNonzero_some hq
+      simp only [Except.ok.injEq, Prod.mk.injEq] at h
+      obtain ⟨rfl, rfl, rfl⟩ := h
+      exact ⟨p, hp, hz, rfl, rfl, rfl⟩
+
+theorem hasNeg_false_iff (g : List α) : hasNeg g = false ↔ ∀ x ∈ g, 0 ≤ x := by
+  simp [hasNeg]
 
 theorem mutate_ok {fuel : Nat} {d : DM α} {a : String} {g : List α} {draws : Nat → α} {pos : Nat}
     {r : DM α × List α × Nat} (h : mutate fuel d a g draws pos = .ok r) :
@@ -190,13 +198,17 @@ theorem mutate_v0_congr {fuel : Nat} {d : DM α} {a : String} {g : List α} {dra
   unfold mutate_v0 at h ⊢
   split at h
   · simp at h
-  · rename_i nz q hq
-    have hq' : q = pos' := by
-      simp only [Except.ok.injEq, Prod.mk.injEq] at h
-      exact h.2.2
-    subst hq'
-    rw [drawUntilNonzero_congr hq hd]
-    exact h
+  · rename_i hneg
+    rw [if_neg hneg]
+    split at h
+    · simp at h
+    · rename_i nz q hq
+      have hq' : q = pos' := by
+        simp only [Except.ok.injEq, Prod.mk.injEq] at h
+        exact h.2.2
+      subst hq'
+      rw [drawUntilNonzero_congr hq hd]
+      exact h
 
 theorem mutate_congr {fuel : Nat} {d : DM α} {a : String} {g : List α} {draws draws' : Nat → α} {pos : Nat}
     {md : DM α} {noise : List α} {pos' : Nat} (h : mutate fuel d a g draws pos = .ok (md, noise, pos'))
@@ -263,7 +275,7 @@ theorem loopWith_spec {β : Type} {mutf : DM α → String → List α → (Nat 
 
 theorem mutate_pos_le {fuel : Nat} {d : DM α} {a : String} {g : List α} {draws : Nat → α} {pos : Nat}
     {md : DM α} {noise : List α} {pos' : Nat} (h : mutate fuel d a g draws pos = .ok (md, noise, pos')) : pos ≤ pos' := by
-  obtain ⟨p, hp, -, -, -, rfl⟩ := mutate_v0_ok (mutate_ok h).2
+  obtain ⟨-, p, hp, -, -, -, rfl⟩ := mutate_v0_ok (mutate_ok h).2
   omega
 
 theorem loop_pos_le {fuel : Nat} {d : DM α} {draws : Nat → α} {js : List (Nat × String × List α)} {pos : Nat}
@@ -393,6 +405,72 @@ theorem absDiff_self (r : List α) : ∀ x ∈ absDiff r r, x = 0 := by
   unfold absDiff at hx
   obtain ⟨j, hj, rfl⟩ := List.getElem_of_mem hx
   simp [absV_eq_abs]
+
+/-! ## the built-in strategies map non-negative gaps to a non-negative bound -/
+
+theorem foldl_nonneg (f : α → α → α) (hf : ∀ a b, 0 ≤ a → 0 ≤ b → 0 ≤ f a b) (t : List α) (acc : α)
+    (hacc : 0 ≤ acc) (ht : ∀ y ∈ t, 0 ≤ y) : 0 ≤ t.foldl f acc := by
+  induction t generalizing acc with
+  | nil => simpa using hacc
+  | cons y ys ih =>
+    simp only [List.foldl_cons]
+    exact ih _ (hf _ _ hacc (ht y List.mem_cons_self)) (fun z hz => ht z (List.mem_cons_of_mem _ hz))
+
+theorem maxL_nonneg : ∀ l : List α, (∀ x ∈ l, 0 ≤ x) → 0 ≤ maxL l := by
+  intro l hl
+  cases l with
+  | nil => simp [maxL]
+  | cons x t =>
+    simp only [maxL]
+    refine foldl_nonneg _ (fun a b ha hb => ?_) t x (hl x List.mem_cons_self) (fun y hy => hl y (List.mem_cons_of_mem _ hy))
+    split <;> assumption
+
+theorem minL_nonneg : ∀ l : List α, (∀ x ∈ l, 0 ≤ x) → 0 ≤ minL l := by
+  intro l hl
+  cases l with
+  | nil => simp [minL]
+  | cons x t =>
+    simp only [minL]
+    refine foldl_nonneg _ (fun a b ha hb => ?_) t x (hl x List.mem_cons_self) (fun y hy => hl y (List.mem_cons_of_mem _ hy))
+    split <;> assumption
+
+theorem mean_nonneg : ∀ l : List α, (∀ x ∈ l, 0 ≤ x) → 0 ≤ mean l := by
+  intro l hl
+  unfold mean
+  split
+  · exact le_refl _
+  · exact div_nonneg (foldl_nonneg _ (fun a b ha hb => add_nonneg ha hb) l 0 (le_refl _) hl) (Nat.cast_nonneg _)
+
+theorem mem_insertLE (x y : α) (l : List α) : y ∈ insertLE x l ↔ y = x ∨ y ∈ l := by
+  induction l with
+  | nil => simp [insertLE]
+  | cons z t ih =>
+    simp only [insertLE]
+    split
+    · simp
+    · simp only [List.mem_cons, ih]; tauto
+
+theorem mem_sortLE (y : α) (l : List α) : y ∈ sortLE l ↔ y ∈ l := by
+  induction l with
+  | nil => simp [sortLE]
+  | cons x t ih => simp [sortLE, mem_insertLE, ih]
+
+theorem getD_nonneg (l : List α) (i : Nat) (hl : ∀ x ∈ l, 0 ≤ x) : 0 ≤ l.getD i 0 := by
+  rw [List.getD_eq_getElem?_getD]
+  cases h : l[i]? with
+  | none => simp
+  | some v => simpa using hl v (List.mem_of_getElem? h)
+
+theorem median_nonneg : ∀ l : List α, (∀ x ∈ l, 0 ≤ x) → 0 ≤ median l := by
+  intro l hl
+  have hs : ∀ x ∈ sortLE l, 0 ≤ x := fun x hx => hl x ((mem_sortLE x l).mp hx)
+  unfold median
+  simp only
+  split
+  · exact le_refl _
+  · split
+    · exact getD_nonneg _ _ hs
+    · exact div_nonneg (add_nonneg (getD_nonneg _ _ hs) (getD_nonneg _ _ hs)) (Nat.cast_nonneg _)
 
 end field
 end Skc.RankInv
